@@ -57,7 +57,7 @@ def structural_defects(tree, src, limit=6):
         if l > n:
             # position on the (virtual) line after the last one is only legitimate at column 0
             return l == n + 1 and c == 0
-        return c <= len(lines[l - 1])
+        return c <= len(lines[l - 1].encode("utf-8", "surrogatepass"))  # columns count UTF-8 bytes, as in CPython's trees
 
     todo = [(tree, "Load")]
     while todo:
